@@ -210,7 +210,11 @@ def build(be, spec, example_batch, start=None):
     else:
         out = getattr(target, op)()
     L = out.stream.sink_to_list()
-    return (lambda b: sdf.emit(make(b))), L, make
+
+    def emit(b):
+        sdf.emit(make(b))
+    emit.out = out
+    return emit, L, make
 
 
 def oracle(be, spec, batches, k):
